@@ -543,6 +543,8 @@ single-via fails only with **the forward search's error** — the query is then 
 underlying search either —, with **the reverse search stopped by a limit of the termination model**
 (C10: a limit hit by any sub-search is the explicit `terminated` error, never a shortened answer;
 the only other member of `stopsQuery` is a Rust panic), or with an error of the similarity function
+on two id lists that consist of edges of the graph (`Ksp.GraphIds`: the candidate and an accepted
+route — the function is never applied to anything else)
 (or the replay is not one the queue could have produced).  Any other failure of the reverse search
 yields the shortest route alone, a failed re-traversal drops that candidate; backtracking, the
 tree-count checks, the loop test and the frontier validation never fail. -/
@@ -552,7 +554,8 @@ theorem single_via_failures {c : Config α} {g : List α} (hf : c.fwd.AdjConsist
     {e : ErrKind} (h : singleVia c g sim term source target k fs rs pops = .error e) :
     runVertexOriented c.fwd.inst source (some target) fs = .error e ∨
     (runVertexOriented (c.rev g).inst target (some source) rs = .error e ∧ e.stopsQuery = true) ∨
-    e = .scheduleExhausted ∨ e = .badSchedule ∨ (∃ a b, sim a b = .error e) :=
+    e = .scheduleExhausted ∨ e = .badSchedule ∨
+      (∃ a b, GraphIds c.edges a ∧ GraphIds c.edges b ∧ sim a b = .error e) :=
   singleVia_error hf hr hts h
 
 /-- conversely **a reverse search stopped by a limit always fails the query with that error**
@@ -566,13 +569,20 @@ theorem single_via_reverse_limit_propagates {c : Config α} {g : List α}
   unfold singleVia
   simp only [hfwd, hrev, ErrKind.stopsQuery, if_true]
 
-/-- hence **an answerable query is never turned into an error** by a similarity function that does
-not itself fail (`AcceptAll` and the cosine variants on routes of known edges): whenever the
-underlying search answers the query and the reverse search is not stopped by a limit (whatever else
-happens to it), so does single-via, on every accepted replay -/
+/-- hence **an answerable query is never turned into another error**: a "no other error" theorem —
+the conclusion is a result OR one of the model's two verdicts on the replay (no theorem shows that
+an accepted complete replay exists; the correspondence run replays the code's own).  Premises: the
+similarity function does not fail on id lists made of edges of the graph (`hsim`; met by all three
+configured functions with NO further premise: `single_via_answers_answerable_configured`; the
+earlier `∀ a b` form was false for the distance-weighted cosine, which fails on an id outside the
+edge list), the underlying search answers the query, and the reverse search — if it fails at all —
+fails with an error outside `ErrKind.stopsQuery` (`hrev`).  `hrev` excludes: a limit of the
+termination model (then the query IS that error: `single_via_reverse_limit_propagates`, C10), the
+frequency-0 panic of the termination model, and, in the model, a reverse replay that is exhausted or
+not one the queue could produce. -/
 theorem single_via_answers_answerable {c : Config α} {g : List α} (hf : c.fwd.AdjConsistent)
     (hr : (c.rev g).AdjConsistent) {sim : List Nat → List Nat → Except ErrKind Bool}
-    (hsim : ∀ a b, ∃ x, sim a b = .ok x)
+    (hsim : ∀ a b, GraphIds c.edges a → GraphIds c.edges b → ∃ x, sim a b = .ok x)
     {term : KspTerm} {source target k : Nat} (hts : target ≠ source) {fs rs pops : List Nat}
     {fres : SearchResult α}
     (hfwd : runVertexOriented c.fwd.inst source (some target) fs = .ok fres)
@@ -584,12 +594,12 @@ theorem single_via_answers_answerable {c : Config α} {g : List α} (hf : c.fwd.
   cases hres : singleVia c g sim term source target k fs rs pops with
   | ok r => exact Or.inl ⟨r, rfl⟩
   | error e =>
-    rcases single_via_failures hf hr hts hres with h | ⟨h, hs⟩ | h | h | ⟨a, b, h⟩
+    rcases single_via_failures hf hr hts hres with h | ⟨h, hs⟩ | h | h | ⟨a, b, ha, hb, h⟩
     · rw [hfwd] at h; cases h
     · rw [hrev e h] at hs; cases hs
     · exact Or.inr (Or.inl (by rw [h]))
     · exact Or.inr (Or.inr (by rw [h]))
-    · obtain ⟨x, hx⟩ := hsim a b
+    · obtain ⟨x, hx⟩ := hsim a b ha hb
       rw [hx] at h; cases h
 
 /-! ### Non-vacuity (single-via): the diamond `0 → {1, 2} → 3`, Dijkstra, k = 2.  The hypotheses hold,
@@ -746,7 +756,10 @@ theorem saturating_mul_decides (f n k : Nat) (hk : k < 2 ^ 64) :
   · intro h; exact le_trans h (min_le_left _ _)
   · intro h; exact le_min h (by omega)
 
-/-- COUNTEREXAMPLE (the code before 407607c, release build): the wrapping product `factor * size mod
+/-- (ARITHMETIC ONLY: a statement about natural numbers, not about a function of the model — the
+model has the repaired, saturating form alone; that the old code computed the wrapping product is
+the harness's observation on the code before 407607c)
+COUNTEREXAMPLE (the code before 407607c, release build): the wrapping product `factor * size mod
 2^64` takes the wrong decision — factor 2^63, k = size = 2 wraps to 0, so the criterion never stopped
 the search although `k ≤ factor * size` (debug builds panicked) -/
 theorem factor_wrapping_counterexample :
@@ -760,7 +773,9 @@ theorem yens_criterion_never_fires (t : KspTerm) {k n : Nat} (h : n < k) : t.ter
   | false => rfl
   | true => have := terminate_length ht; omega
 
-/-- `KspTerminationCriteria` from an object of the configuration: decided by the string under
+/-- (by definition of the model, `KspTerm.ofJson`: what it says about serde's derive rests on the
+`kterm` / `cfg` correspondence streams)
+`KspTerminationCriteria` from an object of the configuration: decided by the string under
 `"type"`; `max` / `factor` must be unsigned integers; unknown keys are ignored -/
 theorem term_config_object (kvs : List (String × Json)) :
     (Json.lookup kvs "type" = some (.str "exact") → KspTerm.ofJson (.obj kvs) = some .exact) ∧
@@ -783,7 +798,8 @@ theorem term_config_object (kvs : List (String × Json)) :
   · intro t h h1 h2 h3
     simp [KspTerm.ofJson, tagged, h, h1, h2, h3]
 
-/-- the sequence form serde also accepts: the tag followed by exactly the variant's fields -/
+/-- (by definition of the model, `KspTerm.ofJson`)
+the sequence form serde also accepts: the tag followed by exactly the variant's fields -/
 theorem term_config_sequence (xs : List Json) :
     KspTerm.ofJson (.arr (.str "exact" :: xs)) = (if xs.length = 0 then some .exact else none) ∧
     KspTerm.ofJson (.arr (.str "max_iteration" :: xs)) =
@@ -803,7 +819,8 @@ theorem term_config_sequence (xs : List Json) :
       cases xs[0]? <;> simp
     · simp [h]
 
-/-- anything that is neither an object nor a sequence starting with a string is refused -/
+/-- (by definition of the model, `KspTerm.ofJson`)
+anything that is neither an object nor a sequence starting with a string is refused -/
 theorem term_config_untagged :
     KspTerm.ofJson .null = none ∧ (∀ s, KspTerm.ofJson (.str s) = none) ∧
     (∀ l b, KspTerm.ofJson (.num l b) = none) ∧ KspTerm.ofJson (.arr []) = none := by
@@ -821,7 +838,9 @@ theorem similarity_test_is_decision_of_rank [HasSqrt α] (f : SimFn α) (edges :
                         | .ok r => .ok (f.isSimilar r)) :=
   Ksp.SimFn.test_eq f edges a b
 
-/-- `AcceptAll` ranks every pair 0 and is never similar; the cosine variants are similar exactly when
+/-- (by definition of the model, `SimFn.rank` / `SimFn.isSimilar`; compared with the code by the `ksim`
+stream)
+`AcceptAll` ranks every pair 0 and is never similar; the cosine variants are similar exactly when
 `threshold ≤ rank` -/
 theorem similarity_decision (thr r : α) (edges : List (EdgeRec α)) (a b : List Nat) [HasSqrt α] :
     (SimFn.acceptAll : SimFn α).rank edges a b = .ok zero ∧
@@ -845,7 +864,10 @@ theorem similarity_fails_only_on_unknown_edge [HasSqrt α] (f : SimFn α) (edges
     k = .network ∧ (∃ thr, f = .distanceWeightedCosine thr) ∧ ∃ e ∈ a ++ b, edges[e]? = none :=
   Ksp.SimFn.rank_error f edges h
 
-/-- **a reverse query is refused** by both k-shortest-paths algorithms (vfix ca2baf1: it used to be
+/-- (by definition of the model: `singleViaVertex` / `yensVertex` begin with the test of the direction
+and of the destination, as the repaired code does; compared with the code by the nested cases of the
+`cfg` stream)
+**a reverse query is refused** by both k-shortest-paths algorithms (vfix ca2baf1: it used to be
 answered as a forward query), as is a query without destination -/
 theorem ksp_reverse_query_refused (c : Config α) (hrev : c.reverse = true) (gcRev : List α)
     (sim : List Nat → List Nat → Except ErrKind Bool) (term : Option KspTerm) (kDefault : Nat)
@@ -857,9 +879,14 @@ theorem ksp_reverse_query_refused (c : Config α) (hrev : c.reverse = true) (gcR
   | none => exact ⟨rfl, _, rfl, rfl⟩
   | some t => simp [singleViaVertex, yensVertex, hrev]
 
-/-- **`SearchAlgorithm` from an object of the configuration**: `k` (an unsigned integer) and
-`underlying` are required, `similarity` and `termination` may be absent or `null` (defaults
-`AcceptAll` / `Exact` at run time), a malformed sub-section refuses the whole section -/
+/-- (by definition of the model, `AlgCfg.ofJson`)
+**`SearchAlgorithm` from an object of the configuration**, for the tag `ksp_single_via` ONLY and
+four situations: `k` missing — refused; `underlying` missing — refused; `k` present but not an
+unsigned integer — refused; `k` an unsigned integer, `underlying` a well-formed section and
+`similarity` and `termination` both ABSENT — the algorithm with no similarity and no criterion
+(defaults `AcceptAll` / `Exact` at run time).  Nothing is stated here about the `yens` tag, about a
+`null`, present or malformed `similarity` / `termination` sub-section or a malformed `underlying`:
+those are exercised by the `cfg` correspondence stream only. -/
 theorem alg_config_object (num : Json → Option α) (d : Nat) (kvs : List (String × Json))
     (htype : Json.lookup kvs "type" = some (.str "ksp_single_via")) :
     (Json.lookup kvs "k" = none → AlgCfg.ofJson num (d + 1) (.obj kvs) = none) ∧
@@ -1229,7 +1256,11 @@ returns the same two results).  `Example.net7`: `0 -e0→ 1 -e1→ 2 -e2→ 3 -e
 `2 -e7→ 6 -e8→ 4` (3, 3); Dijkstra, `Exact`, k = 3, consistent adjacency, the SAME replayed schedules.
 `AcceptAll` returns TWO routes: its second route is the cheapest candidate `[e0, e4]`, which has two
 edges, so the next turn has no spur index (`0..len.saturating_sub(2)`) and accepts nothing.
-The distance-weighted cosine threshold 1/2 (`Example.simCos7`) returns THREE: it turns `[e0, e4]`
+The distance-weighted cosine threshold 1/2 returns THREE — here through `Example.simCos7`, a
+hand-written root-free SURROGATE of `SimFn.distanceWeightedCosine (1/2)` (ℚ has no square root, so
+no Lean statement ties the two; the tie is the corpus run, where the real
+`DistanceWeightedCosineSimilarity { threshold: 0.5 }` and the Float model give the same three
+routes): it turns `[e0, e4]`
 down (rank 0.61), accepts `[e0, e1, e5, e6]` (0.29) and, spurring off that, `[e0, e1, e7, e8]`. -/
 theorem yens_accept_all_fewer_counterexample :
     (Example.net7).fwd.AdjConsistent ∧
@@ -1260,7 +1291,8 @@ by the underlying search either), an error `e` with `e.stopsQuery = true` — a 
 termination model (C10), a Rust panic or, in the model, an invalid replay — that IS the outcome of a
 search on a cut configuration (the statement does not tie that search to the spur searches the run
 performed: its content is the error KIND), or an
-error of the similarity function.  A spur search that finds no path — or fails in any other way —,
+error of the similarity function on two id lists that consist of edges of the graph (an accepted
+route and the candidate).  A spur search that finds no path — or fails in any other way —,
 a failed re-traversal, a loop, a refusal of the frontier model only cost a candidate. -/
 theorem yens_failures {c : Config α} (hf : c.fwd.AdjConsistent)
     {sim : List Nat → List Nat → Except ErrKind Bool} {term : KspTerm} {source target k : Nat}
@@ -1269,7 +1301,7 @@ theorem yens_failures {c : Config α} (hf : c.fwd.AdjConsistent)
     runVertexOriented c.fwd.inst source (some target) (scheds.headD []) = .error e ∨
     (∃ cut v sched, runVertexOriented (cutCfg c cut).inst v (some target) sched = .error e ∧
       e.stopsQuery = true) ∨
-    (∃ a b, sim a b = .error e) := by
+    (∃ a b, GraphIds c.edges a ∧ GraphIds c.edges b ∧ sim a b = .error e) := by
   unfold yens at h
   split at h
   · rename_i e' he'; cases h; exact Or.inl he'
@@ -1280,16 +1312,21 @@ theorem yens_failures {c : Config α} (hf : c.fwd.AdjConsistent)
       exact Or.inr (yenWhile_error hf _ _ _ _ e
         (YenAcc.base (first_route_good hf hfres hfirst)) h)
 
-/-- hence **an answerable query is never turned into an error because a spur search failed**: when
-the underlying search answers the query, the similarity function does not itself fail and no search
-on a cut configuration ends with a limit of the termination model or a panic, Yen's algorithm
-returns a result on every accepted replay (the two other outcomes are the model's verdicts on a
-replay the queue could not have produced — the same shape as `single_via_answers_answerable`).
-The premise `hspur` is satisfiable: `yens_answers_answerable_without_limits` discharges it for
-every configuration without a limit.  (The earlier version required `e.stopsQuery = false` of every
+/-- hence **an answerable query is never turned into another error because a spur search failed** —
+a "NO OTHER ERROR" theorem, not "a result is returned": the conclusion is a result OR one of the
+model's two verdicts on the replay, and no theorem shows that an accepted complete spur replay
+exists (leaving the spur schedules out gives `scheduleExhausted` with every premise true; the
+correspondence run replays the schedules the code itself took).  Premises: the underlying search
+answers the query, the similarity function does not fail on id lists made of edges of the graph
+(`hsim`; all three configured functions meet it with no further premise:
+`yens_answers_answerable_configured`) and no search
+on a cut configuration ends with a limit of the termination model or a panic (`hspur`).
+The premise `hspur` is satisfiable: `yens_answers_answerable_without_limits` discharges it, but only
+for the configurations named there.  (The earlier version required `e.stopsQuery = false` of every
 failing run on every replay, which the empty schedule refutes: it was vacuous.) -/
 theorem yens_answers_answerable {c : Config α} (hf : c.fwd.AdjConsistent)
-    {sim : List Nat → List Nat → Except ErrKind Bool} (hsim : ∀ a b, ∃ x, sim a b = .ok x)
+    {sim : List Nat → List Nat → Except ErrKind Bool}
+    (hsim : ∀ a b, GraphIds c.edges a → GraphIds c.edges b → ∃ x, sim a b = .ok x)
     {term : KspTerm} {source target k : Nat} {scheds : List (List Nat)} {fres : SearchResult α}
     (hfwd : runVertexOriented c.fwd.inst source (some target) (scheds.headD []) = .ok fres)
     (hspur : ∀ cut v sched e, runVertexOriented (cutCfg c cut).inst v (some target) sched = .error e →
@@ -1301,7 +1338,7 @@ theorem yens_answers_answerable {c : Config α} (hf : c.fwd.AdjConsistent)
   | ok r => exact Or.inl ⟨r, rfl⟩
   | diverges why => exact absurd hres (yens_terminates c sim term source target k scheds why)
   | err e =>
-    rcases yens_failures hf hres with h | ⟨cut, v, sched, h, hs⟩ | ⟨a, b, h⟩
+    rcases yens_failures hf hres with h | ⟨cut, v, sched, h, hs⟩ | ⟨a, b, ha, hb, h⟩
     · rw [hfwd] at h; cases h
     · obtain ⟨h1, h2⟩ := hspur cut v sched e h
       cases e with
@@ -1310,23 +1347,81 @@ theorem yens_answers_answerable {c : Config α} (hf : c.fwd.AdjConsistent)
       | scheduleExhausted => exact Or.inr (Or.inl rfl)
       | badSchedule => exact Or.inr (Or.inr rfl)
       | _ => simp [ErrKind.stopsQuery] at hs
-    · obtain ⟨x, hx⟩ := hsim a b
+    · obtain ⟨x, hx⟩ := hsim a b ha hb
       rw [hx] at h; cases h
 
-/-- **a configuration without limits** (its termination model never fires, e.g. `Combined []`):
+/-- **a configuration without limits**.  The premise `hterm` quantifies over ALL counters and is met
+only by the EMPTY combined termination model `Combined []` (or a runtime limit whose clock stands
+still): every iteration, size or advancing runtime limit fires at some counters.  The `[termination]`
+section being mandatory in the application, this is the configuration `{type = "combined", models =
+[]}` only; a form bounded by the counters a run can reach would need a bound on the iterations of
+an A* search with an inconsistent estimate and is not proved here.  For it:
 limits and panics can only come from the termination model (`Ksp.no_limit_never_stopped`: the
 frontier, traversal, access, cost and estimate models report their own error kinds, the backtrack
 of a valid tree never fails), so whenever the underlying search answers the query and the similarity
 function does not fail, Yen's algorithm answers it — whatever happens to the spur searches -/
 theorem yens_answers_answerable_without_limits {c : Config α} (hf : c.fwd.AdjConsistent)
     (hterm : ∀ sz it, c.term.test sz it = .ok ())
-    {sim : List Nat → List Nat → Except ErrKind Bool} (hsim : ∀ a b, ∃ x, sim a b = .ok x)
+    {sim : List Nat → List Nat → Except ErrKind Bool}
+    (hsim : ∀ a b, GraphIds c.edges a → GraphIds c.edges b → ∃ x, sim a b = .ok x)
     {term : KspTerm} {source target k : Nat} {scheds : List (List Nat)} {fres : SearchResult α}
     (hfwd : runVertexOriented c.fwd.inst source (some target) (scheds.headD []) = .ok fres) :
     (∃ r, yens c sim term source target k scheds = .ok r) ∨
     yens c sim term source target k scheds = .err .scheduleExhausted ∨
     yens c sim term source target k scheds = .err .badSchedule :=
   yens_answers_answerable hf hsim hfwd (no_limit_never_stopped c hf hterm target)
+
+/-! ### the same for the three CONFIGURED similarity functions, with no similarity premise
+
+`runAlgCfg` hands the algorithms `sim := f.test c.edges`; by `similarity_never_fails_on_graph_edges`
+that function answers on id lists made of edges of the graph, for `AcceptAll`, the edge-id cosine
+and the distance-weighted cosine alike, every threshold. -/
+
+/-- every configured similarity function meets the premise `hsim` of the answerable theorems -/
+theorem configured_similarity_meets_hsim [HasSqrt α] (f : SimFn α) (edges : List (EdgeRec α)) :
+    ∀ a b, GraphIds edges a → GraphIds edges b → ∃ x, f.test edges a b = .ok x := by
+  intro a b ha hb
+  refine (similarity_never_fails_on_graph_edges f edges ?_).2
+  intro e he
+  rcases List.mem_append.1 he with h | h
+  · exact ha e h
+  · exact hb e h
+
+/-- `single_via_answers_answerable` for `sim := f.test c.edges`, any `f` -/
+theorem single_via_answers_answerable_configured [HasSqrt α] {c : Config α} {g : List α}
+    (hf : c.fwd.AdjConsistent) (hr : (c.rev g).AdjConsistent) (f : SimFn α)
+    {term : KspTerm} {source target k : Nat} (hts : target ≠ source) {fs rs pops : List Nat}
+    {fres : SearchResult α}
+    (hfwd : runVertexOriented c.fwd.inst source (some target) fs = .ok fres)
+    (hrev : ∀ e, runVertexOriented (c.rev g).inst target (some source) rs = .error e →
+      e.stopsQuery = false) :
+    (∃ r, singleVia c g (f.test c.edges) term source target k fs rs pops = .ok r) ∨
+    singleVia c g (f.test c.edges) term source target k fs rs pops = .error .scheduleExhausted ∨
+    singleVia c g (f.test c.edges) term source target k fs rs pops = .error .badSchedule :=
+  single_via_answers_answerable hf hr (configured_similarity_meets_hsim f c.edges) hts hfwd hrev
+
+/-- `yens_answers_answerable` for `sim := f.test c.edges`, any `f` -/
+theorem yens_answers_answerable_configured [HasSqrt α] {c : Config α} (hf : c.fwd.AdjConsistent)
+    (f : SimFn α) {term : KspTerm} {source target k : Nat} {scheds : List (List Nat)}
+    {fres : SearchResult α}
+    (hfwd : runVertexOriented c.fwd.inst source (some target) (scheds.headD []) = .ok fres)
+    (hspur : ∀ cut v sched e, runVertexOriented (cutCfg c cut).inst v (some target) sched = .error e →
+      (∀ ks, e ≠ .terminated ks) ∧ (∀ s, e ≠ .panic s)) :
+    (∃ r, yens c (f.test c.edges) term source target k scheds = .ok r) ∨
+    yens c (f.test c.edges) term source target k scheds = .err .scheduleExhausted ∨
+    yens c (f.test c.edges) term source target k scheds = .err .badSchedule :=
+  yens_answers_answerable hf (configured_similarity_meets_hsim f c.edges) hfwd hspur
+
+/-- `yens_answers_answerable_without_limits` for `sim := f.test c.edges`, any `f` (the premise
+`hterm`: the empty combined termination model only, see there) -/
+theorem yens_answers_answerable_without_limits_configured [HasSqrt α] {c : Config α}
+    (hf : c.fwd.AdjConsistent) (hterm : ∀ sz it, c.term.test sz it = .ok ()) (f : SimFn α)
+    {term : KspTerm} {source target k : Nat} {scheds : List (List Nat)} {fres : SearchResult α}
+    (hfwd : runVertexOriented c.fwd.inst source (some target) (scheds.headD []) = .ok fres) :
+    (∃ r, yens c (f.test c.edges) term source target k scheds = .ok r) ∨
+    yens c (f.test c.edges) term source target k scheds = .err .scheduleExhausted ∨
+    yens c (f.test c.edges) term source target k scheds = .err .badSchedule :=
+  yens_answers_answerable_without_limits hf hterm (configured_similarity_meets_hsim f c.edges) hfwd
 
 /-! ### Non-vacuity (Yen): `0 -e0→ 1 -e1→ 2 -e2→ 3` with the alternative `1 -e3→ 4 -e4→ 3`, k = 2 -/
 
@@ -1369,12 +1464,53 @@ example : ∃ r first, yens (Example.alt3 []) simAcceptAll .exact 0 3 2 [[0, 1, 
   obtain ⟨fres, hfwd, _⟩ := yens_first_route Example.alt3_adj (by decide) hr
   -- `yens_answers_answerable_without_limits` yields the run (first disjunct) on this replay
   have hans := yens_answers_answerable_without_limits (term := .exact) (k := 2) Example.alt3_adj
-    hterm (sim := simAcceptAll) (fun _ _ => ⟨false, rfl⟩) hfwd
+    hterm (sim := simAcceptAll) (fun _ _ _ _ => ⟨false, rfl⟩) hfwd
   rw [hr] at hans
   refine ⟨r, first, hr, by simpa using congrArg List.length hids, h1, hmin, hperm, ?_,
     no_limit_never_stopped _ Example.alt3_adj hterm 3⟩
   exact yens_routes_state_partial Example.alt3_adj
     ((SearchDiscipline.config_zeroH _ hwf).heur (Config.inst_wf _ Example.alt3_adj) true) hr
+
+/-- the configured corollaries apply with the DISTANCE-WEIGHTED COSINE (threshold 1/2, any square
+root function): on `alt3 []` (Yen; no limits, the first search answers) and on the diamond
+(single-via; both searches answer) every premise of `yens_answers_answerable_configured`,
+`yens_answers_answerable_without_limits_configured` and `single_via_answers_answerable_configured`
+is met, and no similarity premise is left -/
+example [HasSqrt ℚ] :
+    ((∃ r, yens (Example.alt3 []) ((SimFn.distanceWeightedCosine (1 / 2)).test (Example.alt3 []).edges)
+        .exact 0 3 2 [[0, 1, 2, 4, 3], [1, 4, 3]] = .ok r) ∨
+      yens (Example.alt3 []) ((SimFn.distanceWeightedCosine (1 / 2)).test (Example.alt3 []).edges)
+        .exact 0 3 2 [[0, 1, 2, 4, 3], [1, 4, 3]] = .err .scheduleExhausted ∨
+      yens (Example.alt3 []) ((SimFn.distanceWeightedCosine (1 / 2)).test (Example.alt3 []).edges)
+        .exact 0 3 2 [[0, 1, 2, 4, 3], [1, 4, 3]] = .err .badSchedule) ∧
+    ((∃ r, singleVia Example.diamond (List.replicate 4 0)
+        ((SimFn.distanceWeightedCosine (1 / 2)).test Example.diamond.edges) .exact 0 3 2
+        [0, 1, 3] [3, 1, 0] [1, 2] = .ok r) ∨
+      singleVia Example.diamond (List.replicate 4 0)
+        ((SimFn.distanceWeightedCosine (1 / 2)).test Example.diamond.edges) .exact 0 3 2
+        [0, 1, 3] [3, 1, 0] [1, 2] = .error .scheduleExhausted ∨
+      singleVia Example.diamond (List.replicate 4 0)
+        ((SimFn.distanceWeightedCosine (1 / 2)).test Example.diamond.edges) .exact 0 3 2
+        [0, 1, 3] [3, 1, 0] [1, 2] = .error .badSchedule) := by
+  constructor
+  · obtain ⟨r, hr, _⟩ := Example.ok_of_obsOf Example.yen_state_accumulated.1
+    obtain ⟨fres, hfwd, _⟩ := yens_first_route Example.alt3_adj (by decide) hr
+    have hterm : ∀ sz it, (Example.alt3 []).term.test sz it = .ok () :=
+      SearchLimits.combined_nil_test
+    -- the general form, its premise `hspur` discharged by `no_limit_never_stopped` …
+    have := yens_answers_answerable_configured (term := .exact) (k := 2) Example.alt3_adj
+      (SimFn.distanceWeightedCosine (1 / 2 : ℚ)) hfwd
+      (no_limit_never_stopped _ Example.alt3_adj hterm 3)
+    -- … and the corollary for configurations without limits
+    exact yens_answers_answerable_without_limits_configured Example.alt3_adj hterm _ hfwd
+  · obtain ⟨r, hr, _⟩ := Example.ok_of_idsOf Example.diamond_accept_all
+    obtain ⟨fres, hfwd, hcase⟩ := single_via_terminates hr
+    have hrA := rev_adj_irrel _ [] (List.replicate 4 (0 : ℚ)) Example.diamond_adj.2
+    refine single_via_answers_answerable_configured Example.diamond_adj.1 hrA _ (by decide) hfwd ?_
+    intro e he
+    rcases hcase with ⟨⟨e0, he0, hs⟩, _⟩ | ⟨rres, _, hrres, _⟩
+    · rw [he0] at he; cases he; exact hs
+    · rw [hrres] at he; cases he
 
 /-! ### The old witnesses of Yen's defects, on the repaired algorithm (corpus keys in brackets) -/
 
